@@ -454,4 +454,74 @@ def joinedKey (parse : String → Name) (r : Req) : Path :=
   | .rel parts, some p => p ++ parts
   | .rel parts, none => parts
 
+/-! ### the configured pipelines sub-directory (`config.pipelines_subdir`)
+
+`pypyr/loaders/file.py` sets the module constant
+`cwd_pipelines_dir = config.cwd.joinpath(config.pipelines_subdir)` ONCE, when the module is imported:
+the sub-directory of step 4 is the value `config.pipelines_subdir` has AT THAT MOMENT. pypyr imports
+that module lazily - `loader_cache.get_pype_loader(None)` → `moduleloader.get_module('pypyr.loaders.file')`
+on the first pipeline load of the process - which is after `cli.main` ran `config.init()` / after an API
+client configured `config`. Nothing that `import pypyr.cli` or `import pypyr.pipelinerunner` pulls in
+imports it (checked on the tree under test by the harness). The layers above (`searchDirs`,
+`cwdPipelines`) are the instance `sub = ["pipelines"]` (the default). -/
+
+/-- `search_locations` with the sub-directory `sub` (a relative path) for step 4 -/
+def searchDirsS (fs : Fs) (sub : List String) (parent : Option Path) : List Path :=
+  (match parent with
+   | some p => if fs.dirExists p then (if p = fs.cwd then [] else [p]) else []
+   | none => []) ++ [fs.cwd, fs.cwd ++ sub, fs.builtin]
+
+/-- `get_pipeline_path` when `cwd_pipelines_dir = cwd/sub` -/
+def getPipelinePathS (fs : Fs) (sub : List String) (name : Name) (parent : Option Path) : Except String Path :=
+  match name with
+  | .abs parts =>
+    let f := fileParts parts
+    if fs.isFile f then .ok f else .error (pathStr f ++ " does not exist.")
+  | .rel parts =>
+    let dirs := searchDirsS fs sub parent
+    match findPipeline fs (fileParts parts) dirs with
+    | some p => .ok p
+    | none => .error (notFoundMsg ("/".intercalate (fileParts parts)) dirs)
+
+/-- what the process knows about the sub-directory -/
+structure SubProc where
+  /-- `config.pipelines_subdir` now -/
+  configSubdir : List String := ["pipelines"]
+  /-- the sub-directory inside `pypyr.loaders.file.cwd_pipelines_dir`, once that module is imported -/
+  frozen : Option (List String) := none
+  /-- the pipeline file the last successful look-up found (the caller of a pype child) -/
+  last : Option Path := none
+  deriving Repr, DecidableEq
+
+inductive SubOp where
+  /-- `config.init()` merged a file that sets it / the client assigned `config.pipelines_subdir` -/
+  | setConfig (sub : List String)
+  /-- something imports `pypyr.loaders.file` -/
+  | importLoader
+  /-- a root pipeline is loaded through the file loader (no parent) -/
+  | lookup (name : Name)
+  /-- a pype child of the pipeline found last: its parent is that file's directory -/
+  | lookupChild (name : Name)
+  deriving Repr, DecidableEq
+
+/-- `import pypyr.loaders.file`: the first import fixes the constant -/
+def SubProc.imported (p : SubProc) : SubProc :=
+  match p.frozen with
+  | some _ => p
+  | none => { p with frozen := some p.configSubdir }
+
+/-- the sub-directory a look-up uses -/
+def SubProc.sub (p : SubProc) : List String := p.imported.frozen.getD p.configSubdir
+
+def runSub (fs : Fs) : SubProc → List SubOp → List (Except String Path)
+  | _, [] => []
+  | p, .setConfig s :: rest => runSub fs { p with configSubdir := s } rest
+  | p, .importLoader :: rest => runSub fs p.imported rest
+  | p, .lookup n :: rest =>
+    let r := getPipelinePathS fs p.sub n none
+    r :: runSub fs { p.imported with last := match r with | .ok f => some f | .error _ => p.last } rest
+  | p, .lookupChild n :: rest =>
+    let r := getPipelinePathS fs p.sub n (p.last.map dirOf)
+    r :: runSub fs { p.imported with last := match r with | .ok f => some f | .error _ => p.last } rest
+
 end Pypyr.Resolve
